@@ -132,6 +132,14 @@ fn greet(name: str, times: int) {
     }
 }
 
+fn never_called(«dup:param|first: int», «dup:param|second: [str]») -> int {
+    «tail:int|«opd:int|first» + «opd:int|second.len()»»
+}
+
+pub fn exported_never_called(«dup:param|only: ?float») {
+    println(only);
+}
+
 fn nothing() -> null {
     «pt:-:null»
     null
@@ -385,6 +393,15 @@ fn main() {
     let folded = «ty:int|both(«arg:int|1»)»;
     let by_name: fn(x: int, y: str) -> bool = fn(x: int, y: str) -> bool { y.len() == x };
     println(a, folded, by_name(«args:2|«arg:int|1», «arg:str|"a"»»));
+}
+`},
+	{Name: "fn_type_min", Construct: "fn-type-annotation", Tags: []string{TagFnTypeParams}, Main: `
+fn apply(f: fn(x: int) -> int, v: int) -> int {
+    «tail:int|f(«args:1|«arg:int|v»»)»
+}
+
+fn main() {
+    println(apply(«args:2|«arg:fn(x:int)->int|fn(x: int) -> int { x + 1 }», «arg:int|1»»));
 }
 `},
 	{Name: "fn_type_dup_param", Construct: "fn-type-annotation", Tags: []string{TagFnTypeParams}, Main: `
